@@ -511,6 +511,10 @@ func c15GuardedFields(p *Prog, r *Report) int {
 			if ft == "sync.Mutex" || ft == "sync.RWMutex" {
 				o.mutex = append(o.mutex, st.Field(i).Name())
 			}
+			// a condition variable brings its own locker (cv.L), which may be the struct's mutex
+			if ft == "*sync.Cond" || ft == "sync.Cond" {
+				o.mutex = append(o.mutex, st.Field(i).Name()+".L")
+			}
 		}
 		if len(o.mutex) > 0 {
 			owners = append(owners, o)
